@@ -121,15 +121,17 @@ CHECKS["C15"] = {
 }
 CHECKS["C09"] = {
     "level": "proof",
-    "text": "Kernel-checked per model: for Learner1D, SequenceLearner, AverageLearner, DataSaver over any learner and "
-            "BalancingLearner over lawful children, ask(n, False) returns the very state it was given (hence data, pending, losses "
-            "and all later answers are unchanged) and the points of ask(n, True), whose state is tell_pending folded over them. "
-            "LearnerND / IntegratorLearner (utils.restore snapshot) and Learner2D have no Lean model of the roll-back: for them the "
-            "deciding part is the twin oracle (listed as partial). Search: twin learners over 17 kinds, one receiving extra "
-            "non-committing asks twice; every observable and every later answer compared exactly.",
+    "text": "Kernel-checked per model: for Learner1D, SequenceLearner, AverageLearner, AverageLearner1D (complete model), DataSaver over "
+            "any learner and BalancingLearner over lawful children, ask(n, False) returns the very state it was given (hence data, "
+            "pending, losses and all later answers are unchanged) and the points of ask(n, True), whose state is tell_pending folded "
+            "over them. LearnerND / IntegratorLearner (utils.restore snapshot): the roll-back half is proved on the models of C04 / C07 "
+            "(state as given, also when the request raises; same points and error class as the committing ask), the committing half "
+            "is left to the twin oracle (listed as partial); Learner2D has no Lean model. Search: twin learners over 22 kinds, one "
+            "receiving extra non-committing asks twice (incl. requests that cannot be served and raise); every observable and every "
+            "later answer compared exactly.",
     "design_ref": "DESIGN.md section 6 C09",
-    "note": "Trusted: Lean kernel, standard axioms; the models are tied to the code by the lock-step runs of C01/C02/C15/C16/C17/C18; "
-            "utils.restore (deepcopy of __dict__) is an exact snapshot. Two defects found here were repaired by fix: commits.",
+    "note": "Trusted: Lean kernel, standard axioms; the models are tied to the code by the lock-step runs of C01/C02/C04/C07/C15/C16/C17/C18; "
+            "utils.restore (deepcopy of __dict__) is an exact snapshot. Three defects found here were repaired by fix: commits.",
     "technique": T,
 }
 CHECKS["C10"] = {
